@@ -13,7 +13,7 @@ import sys
 import tempfile
 
 from .. import avro_c19 as am
-from .. import gen, observe, probes, sources_c11, workload
+from .. import gen, observe, probes, sizes_c11, sources_c11, workload
 from ..core import subseed
 
 ID = "C11"
@@ -43,7 +43,19 @@ RULE = (
     "handle re-used with new content; many short-lived handles) through RecordReader(fileobj=), StreamReader(fh), "
     "AvroReader(fh), open_path_or_stream(fh,'rb'); hostile-but-legal file names x extension x {relative, absolute, behind a "
     "scheme}: what lands on disk is the container the extension/scheme names and reads back, or the name is refused for "
-    "write and read alike (stream: observe.normalise(obs) equality; avro: the C19 comparison, "
+    "write and read alike, and an accepted name without URL-special characters creates a file of EXACTLY that name (incl. "
+    "sqlite://name.db|.sqlite databases); a plain container compressed by ANOTHER tool of the format (levels, frame options, "
+    "gzip members / name / mtime) through bytesio / buffered / raw / neutral / extension; doubly compressed input (refused, or "
+    "decoded to exactly the records); a single record whose frame / payload is 2**16, 2**20 (+-1) and 2**24 (-4096, -1, 0, "
+    "+58) bytes long between two small records; plain streams of exactly k*8192 / 2**16 / 2**17 / 2**20 (+-1) bytes and "
+    "the same records under every codec; reader -> writer copy pipelines with two sources of one record type and an equal "
+    "descriptor re-created in between, per codec x container; special matrix sequences: NO record (header-only stream / "
+    "empty Avro container), exactly one record, and (stream) one type NAME standing for a base, two extended and a projected "
+    "field list in base-first / extended-first / interleaved order + identifier-coincident pairs, through every codec and "
+    "route; two files in which one FIELD NAME has different types (datetime vs varint / float / filesize / string, values "
+    "above 2**32) read by one process in both orders, sequentially or with both readers open (avro, jsonfile compared with "
+    "what was written; csvfile, sqlite with what a fresh child process reads from that file alone); thorough: 12 matrix sequences up to 25000 records, more "
+    "hostile names, 4 repetitions of the in-process kinds, 400-step handle turn-over (stream: observe.normalise(obs) equality; avro: the C19 comparison, "
     "floats to single precision, timestamps as instants).  Plus JSON / JSON lines / CSV chosen by extension, and junk inputs "
     "(empty, text, record repr text, random bytes, each codec around junk, each codec magic followed by junk, Avro magic "
     "followed by junk; non-stream input that contains the stream magic text at offset 0-5/7/10 instead of the header frame, "
@@ -70,11 +82,17 @@ ASSUMPTIONS = [
     "fragment / query semantics, and the codec extension is lost with it), only the container of what is created and that it "
     "reads back under the same name; relative names with unbalanced / non-IPv6 brackets are refused with ValueError today "
     "for write and read, which is accepted as a consistent refusal",
+    "hostile names containing an ASCII tab / newline lose that character (urlsplit drops it) like '#' / '?' cut the name: "
+    "URL semantics, the exact-name demand does not apply to them; '-' is stdout/stdin, not a file name",
+    "a zstd file made of SEVERAL frames (pzstd, `cat a.zst b.zst`) is read correctly through file objects but fails by path "
+    "('Unpack failed: incomplete input': zstandard's stream_reader is handed to the record reader unbuffered and returns short "
+    "at a frame end); files written by flow.record are single-frame, so this is not generated (reported to the lead)",
+    "doubly compressed input: a refusal with zero records (HEAD) or exactly the records are both accepted",
     "raw objects deliver full reads (as io.FileIO does); objects whose first read returns fewer bytes than the magic depth are "
     "not generated (reported to the lead as candidate finding sniff-single-peek-short-read)",
 ]
 SHARDS = {"quick": 16, "thorough": 16}
-BUDGET_S = {"quick": 200, "thorough": 1200}
+BUDGET_S = {"quick": 200, "thorough": 2400}
 
 ANCHORS = [
     "flow.record.base:open_stream",
@@ -156,7 +174,7 @@ def teardown(ctx):
 
 def generate(ctx):
     idx = 0
-    nseq = ctx.scale(4, 10)
+    nseq = ctx.scale(4, 12)
     for seq in range(nseq):
         for codec in CODECS:
             for container in CONTAINERS:
@@ -164,13 +182,26 @@ def generate(ctx):
                     yield {"k": "cell", "codec": codec, "container": container, "seq": seq,
                            "s": subseed("c11", ctx.seed, "seq", container, seq)}
                 idx += 1
+    # special sequences through the whole matrix: no record at all (header-only stream / empty Avro container), exactly one
+    # record, and (stream) one type NAME standing for several field lists + identifier-coincident pairs
+    for flavour in ("zero", "one", "versions"):
+        for rep in range(ctx.scale(1, 3) if flavour == "versions" else 1):
+            for codec in CODECS:
+                for container in CONTAINERS:
+                    if flavour == "versions" and container == "avro":
+                        continue
+                    if ctx.mine(idx):
+                        yield {"k": "cell", "codec": codec, "container": container, "seq": flavour,
+                               "s": subseed("c11", ctx.seed, "seq", container, flavour, rep)}
+                    idx += 1
     for rep in range(ctx.scale(1, 3)):
         for kind in JUNK_KINDS:
             for via in JUNK_VIAS:
                 if ctx.mine(idx):
                     yield {"k": "junk", "kind": kind, "via": via, "s": subseed("c11", ctx.seed, "junk", kind, via, rep)}
                 idx += 1
-    for rep in range(ctx.scale(1, 2)):
+    # in-process kinds: more repetitions in the thorough tier
+    for rep in range(ctx.scale(1, 4)):
         for codec in CODECS:
             for container in CONTAINERS:
                 for nw in (2, 3):
@@ -184,6 +215,63 @@ def generate(ctx):
                         yield {"k": "overwrite", "codec": codec, "container": container, "prior": prior,
                                "s": subseed("c11", ctx.seed, "overwrite", container, prior, rep)}
                     idx += 1
+        for container in CONTAINERS:
+            for history in ("reused-handle", "short-lived"):
+                for k in range(ctx.scale(2, 3)):
+                    if ctx.mine(idx):
+                        yield {"k": "turnover", "container": container, "history": history, "s": subseed("c11", ctx.seed, "turnover", container, history, rep, k)}
+                    idx += 1
+        for codec, variants in sources_c11.FOREIGN_VARIANTS.items():
+            for variant in variants:
+                for container in CONTAINERS:
+                    if ctx.mine(idx):
+                        yield {"k": "foreign", "codec": codec, "variant": variant, "container": container,
+                               "s": subseed("c11", ctx.seed, "foreign", codec, variant, container, rep)}
+                    idx += 1
+        for inner in COMPOUND_INNER:
+            for codec in CODECS[1:]:
+                if ctx.mine(idx):
+                    yield {"k": "compound", "inner": inner, "codec": codec, "s": subseed("c11", ctx.seed, "compound", inner, rep)}
+                idx += 1
+    for outer in ("gz", "bz2", "lz4", "zst"):
+        for inner in ("gz", "bz2", "lz4", "zst"):
+            for container in CONTAINERS:
+                for via in ("bytesio", "neutral", "ext"):
+                    if ctx.mine(idx):
+                        yield {"k": "nested", "outer": outer, "inner": inner, "container": container, "via": via,
+                               "s": subseed("c11", ctx.seed, "nested", outer, inner, container)}
+                    idx += 1
+    # size boundaries: a record of ~2**16 / 2**20 (every codec x container x field kind, all routes) and ~2**24 bytes (quick:
+    # one target above 16 MiB, plain + one codec, two routes; thorough: every target x codec, all routes, stream container)
+    for codec in CODECS:
+        for container in CONTAINERS:
+            for j, target in enumerate(sizes_c11.FRAME_TARGETS_SMALL):
+                field = ("bytes", "string")[(j + CODECS.index(codec)) % 2]
+                if ctx.mine(idx):
+                    yield {"k": "frame-size", "codec": codec, "container": container, "field": field, "target": target, "s": subseed("c11", ctx.seed, "frame", target)}
+                idx += 1
+    big_codecs = CODECS if not ctx.quick else ("none", CODECS[1 + ctx.seed % 5])
+    for codec in big_codecs:
+        for j, target in enumerate(sizes_c11.FRAME_TARGETS_16M if not ctx.quick else sizes_c11.FRAME_TARGETS_16M[-1:]):
+            for container in (("stream",) if ctx.quick else CONTAINERS):
+                if ctx.mine(idx):
+                    yield {"k": "frame-size", "codec": codec, "container": container, "field": ("bytes", "string")[j % 2], "target": target,
+                           "routes": ["ext", "bytesio"] if ctx.quick else None, "s": subseed("c11", ctx.seed, "frame", target)}
+                idx += 1
+    for codec in CODECS:
+        for target in sizes_c11.TOTAL_TARGETS:
+            for delta in (-1, 0, 1):
+                if ctx.mine(idx):
+                    yield {"k": "total-size", "codec": codec, "target": target, "delta": delta, "s": subseed("c11", ctx.seed, "total", target, delta)}
+                idx += 1
+    for rep in range(ctx.scale(1, 4)):
+        for codec in CODECS:
+            for container in CONTAINERS:
+                if ctx.mine(idx):
+                    yield {"k": "merge", "codec": codec, "container": container, "s": subseed("c11", ctx.seed, "merge", codec, container, rep)}
+                idx += 1
+    # subprocess-bound kinds: fewer repetitions
+    for rep in range(ctx.scale(1, 2)):
         for codec in CODECS:
             for container in CONTAINERS:
                 for touch in STDIN_TOUCH:
@@ -199,29 +287,34 @@ def generate(ctx):
                         yield {"k": "pipe-path", "codec": codec, "container": container, "form": form,
                                "s": subseed("c11", ctx.seed, "pipe-path", container, form, rep)}
                     idx += 1
-        for container in CONTAINERS:
-            for history in ("reused-handle", "short-lived"):
-                for k in range(2):
-                    if ctx.mine(idx):
-                        yield {"k": "turnover", "container": container, "history": history, "s": subseed("c11", ctx.seed, "turnover", container, history, rep, k)}
-                    idx += 1
-        if rep == 0:
-            for stem in sources_c11.NAME_STEMS:
-                for ext in sources_c11.NAME_EXTS:
-                    for form in sources_c11.NAME_FORMS:
-                        if ctx.mine(idx):
-                            yield {"k": "names", "stem": stem, "ext": ext, "form": form, "s": subseed("c11", ctx.seed, "names", stem, ext, form)}
-                        idx += 1
-        for inner in COMPOUND_INNER:
-            for codec in CODECS[1:]:
+    stems = sources_c11.NAME_STEMS + (() if ctx.quick else sources_c11.NAME_STEMS_THOROUGH)
+    for stem in stems:
+        for ext in sources_c11.NAME_EXTS + sources_c11.SQLITE_EXTS:
+            if stem + ext in ("-", ""):
+                continue  # that is stdout / stdin, not a file name
+            for form in sources_c11.NAME_FORMS + (sources_c11.SQLITE_FORMS if ext in sources_c11.SQLITE_EXTS else ()):
                 if ctx.mine(idx):
-                    yield {"k": "compound", "inner": inner, "codec": codec, "s": subseed("c11", ctx.seed, "compound", inner, rep)}
+                    yield {"k": "names", "stem": stem, "ext": ext, "form": form, "s": subseed("c11", ctx.seed, "names", stem, ext, form)}
                 idx += 1
-    for rep in range(ctx.scale(2, 6)):
+    for rep in range(ctx.scale(2, 8)):
         for ext in (".json", ".jsonl", ".csv"):
             if ctx.mine(idx):
                 yield {"k": "text-ext", "ext": ext, "s": subseed("c11", ctx.seed, "text", ext, rep)}
             idx += 1
+    for ext in (".json", ".jsonl", ".csv"):
+        for n in (0, 1):
+            if ctx.mine(idx):
+                yield {"k": "text-ext", "ext": ext, "n": n, "s": subseed("c11", ctx.seed, "text", ext, "n", n)}
+            idx += 1
+    # cross-file reader state: the same FIELD NAME with different types in two files read by one process
+    for adapter in sources_c11.CROSS_ADAPTERS:
+        for other in sources_c11.CROSS_TYPES:
+            for order in ("ab", "ba"):
+                for layout in ("sequential", "simultaneous"):
+                    if ctx.mine(idx):
+                        yield {"k": "cross-file", "adapter": adapter, "other": other, "order": order, "layout": layout,
+                               "s": subseed("c11", ctx.seed, "cross", adapter, other, order, layout)}
+                    idx += 1
 
 
 # ---- helpers ----------------------------------------------------------------------------------------------------------
@@ -233,8 +326,14 @@ def tmp_name(ctx, stem, suffix=""):
 def build_records(case, thorough):
     """-> (records, descriptor or None).  seq index decides the size class: the last sequences of the thorough tier are long."""
     seq = case["seq"]
+    if seq == "zero":
+        return []
+    if seq == "one":
+        return sized_records(case["container"], case["s"], 1)[:1]
+    if seq == "versions":
+        return versions_sequence(case["s"], thorough)
     big = seq >= 3 if not thorough else seq >= 7
-    size = 400 if not thorough else (800, 2500, 6000)[max(0, min(seq - 7, 2))]
+    size = 400 if not thorough else (800, 2500, 6000, 12000, 25000)[max(0, min(seq - 7, 4))]
     if case["container"] == "stream":
         n = None
         if big:
@@ -250,6 +349,49 @@ def build_records(case, thorough):
     while not recs:
         _, recs = am.clean_sequence(case["s"] + k, n_records=3)
         k += 1
+    return recs
+
+
+def versions_sequence(seed, thorough=False):
+    """Record stream sequence in which ONE type name stands for several field lists: a base type, types extended from it
+    (RecordDescriptor.extend) and a projection of it, in base-first / extended-first / interleaved order, followed by records of
+    identifier-coincident pairs (same name AND same 32-bit hash, workload.coincident_pairs()).  Every record must come back
+    under the field list it was written with."""
+    from flow.record import RecordDescriptor
+
+    rng = random.Random(seed)
+    name = "versions/t%x" % (seed & 0xFFFF)
+    base = RecordDescriptor(name, [("string", "a"), ("varint", "b")])
+    ext1 = base.extend([("string", "c")])
+    ext2 = ext1.extend([("datetime", "d"), ("bytes", "e")])
+    proj = RecordDescriptor(name, [("varint", "b")])
+    versions = [base, ext1, ext2, proj]
+    order = rng.choice(["base-first", "extended-first", "interleaved"])
+    n = rng.choice([2, 4, 9] if not thorough else [4, 9, 60])
+    if order == "base-first":
+        plan = [base] * n + [ext1] * n + [ext2] * n + [proj] * n + [base]
+    elif order == "extended-first":
+        plan = [ext2] * n + [ext1] * n + [base] * n + [proj] + [ext2]
+    else:
+        plan = [rng.choice(versions) for _ in range(4 * n)] + versions
+    recs = []
+    for i, d in enumerate(plan):
+        kw = {"b": i}
+        fields = [f for _, f in d.get_field_tuples()]
+        if "a" in fields:
+            kw["a"] = "a%d" % i
+        if "c" in fields:
+            kw["c"] = rng.choice(["c", "", "ü%d" % i])
+        if "d" in fields:
+            kw["d"] = "2021-02-03T04:05:06.%06dZ" % (i % 1000000)
+            kw["e"] = bytes([i % 256]) * (i % 5)
+        recs.append(d.recordType(**kw))
+    b = gen.Builder(rng)
+    pairs = workload.coincident_pairs()
+    rng.shuffle(pairs)
+    for a_desc, b_desc in pairs[: (2 if not thorough else 4)]:
+        for j in range(rng.choice([2, 3, 6])):
+            recs.append(b.record((a_desc, b_desc)[j % 2] if rng.random() < 0.8 else rng.choice((a_desc, b_desc))))
     return recs
 
 
@@ -411,6 +553,18 @@ def execute(ctx, case):
         return sources_c11.execute_turnover(ctx, case)
     if case["k"] == "names":
         return sources_c11.execute_names(ctx, case)
+    if case["k"] == "cross-file":
+        return sources_c11.execute_cross_file(ctx, case)
+    if case["k"] == "frame-size":
+        return sizes_c11.execute_frame_size(ctx, case)
+    if case["k"] == "total-size":
+        return sizes_c11.execute_total_size(ctx, case)
+    if case["k"] == "merge":
+        return sizes_c11.execute_merge(ctx, case)
+    if case["k"] == "foreign":
+        return sources_c11.execute_foreign(ctx, case)
+    if case["k"] == "nested":
+        return sources_c11.execute_nested(ctx, case)
     return execute_text_ext(ctx, case)
 
 
@@ -754,6 +908,9 @@ def execute_cell(ctx, case):
 
     codec, container, seq = case["codec"], case["container"], case["seq"]
     records = build_records(case, not ctx.quick)
+    if not isinstance(seq, int):
+        ctx.event("matrix_flavour:" + seq)
+        seq = {"zero": 0, "one": 1, "versions": 2}[seq] + (case["s"] & 1)
     ctx.ev()
     before = [observe.normalise(observe.obs(r)) for r in records]
     for r in records:
@@ -837,6 +994,8 @@ def execute_cell(ctx, case):
             ctx.violation(None, "%s: RecordReader returned %s" % (what, type(rd).__name__), detail=dict(detail, naming=naming + sub))
         if compare(ctx, container, records, before, got, what, dict(detail, naming=naming + sub)):
             ctx.cell(codec, container, naming)
+            if not isinstance(case["seq"], int):
+                ctx.cell("flavour", case["seq"], codec, container, naming)
             ctx.nontrivial("cell", codec, container, case["s"], naming, sub, note)
         ctx.event("records_read", len(got))
 
@@ -1109,6 +1268,30 @@ def execute_junk(ctx, case):
 
 
 # ---- JSON / CSV by extension ----------------------------------------------------------------------------------------
+def execute_text_ext_empty(ctx, case, desc):
+    """A JSON / CSV file into which no record was written: whatever the reader does with it (today: nothing for JSON, an
+    error for the 0-byte CSV file), no record may appear."""
+    from flow.record import RecordReader, RecordWriter
+
+    ext = case["ext"]
+    ctx.ev()
+    path = tmp_name(ctx, "t0", ext)
+    try:
+        w = RecordWriter(path)
+        w.flush()
+        w.close()
+    except Exception as e:  # noqa: BLE001
+        ctx.violation(None, "creating a %s file without records raised %s" % (ext, type(e).__name__), detail={"exception": repr(e)[:300]})
+        return
+    rd, got, err = drain(lambda: RecordReader(path))
+    _rm(path)
+    if got:
+        ctx.violation(None, "records appear in a %s file into which none was written" % ext, detail={"records": len(got)})
+    else:
+        ctx.cell("by-extension-empty", ext, "refused" if err is not None else "empty")
+    ctx.nontrivial("text-ext-empty", ext)
+
+
 def execute_text_ext(ctx, case):
     from flow.record import RecordDescriptor, RecordReader, RecordWriter
     from flow.record.adapter.csvfile import CsvfileReader, CsvfileWriter
@@ -1119,7 +1302,9 @@ def execute_text_ext(ctx, case):
     names = gen.unique_names(rng, 2)
     desc = RecordDescriptor(gen.rand_typename(rng), [("string", names[0]), ("varint", names[1])])
     records = [desc.recordType(**{names[0]: "v%d-%s" % (i, rng.choice(["a b", "ünï", "x,y", "q\"q", "plain"])), names[1]: rng.randint(-(2**40), 2**40)})
-               for i in range(rng.choice([1, 3, 10]))]
+               for i in range(case.get("n", rng.choice([1, 3, 10])))]
+    if not records:
+        return execute_text_ext_empty(ctx, case, desc)
     ctx.ev()
     path = tmp_name(ctx, "t", ext)
     detail = {"ext": ext, "records": len(records)}
@@ -1199,7 +1384,10 @@ def finish(ctx):
         ctx.note("overwrite_cells_expected", len(CODECS) * len(CONTAINERS) * 2)
         ctx.note("compound_cells_expected", len(COMPOUND_INNER) * (len(CODECS) - 1))
         ctx.note("pipe_path_cells_expected", len(CODECS) * len(CONTAINERS) * len(sources_c11.PIPE_FORMS))
-        ctx.note("names_cases_expected", len(sources_c11.NAME_STEMS) * len(sources_c11.NAME_EXTS) * len(sources_c11.NAME_FORMS))
+        ctx.note("names_cases_expected", (len(sources_c11.NAME_STEMS) + (0 if ctx.quick else len(sources_c11.NAME_STEMS_THOROUGH)))
+                 * len(sources_c11.NAME_EXTS) * len(sources_c11.NAME_FORMS))
+        ctx.note("foreign_cells_expected", 2 * sum(len(v) for v in sources_c11.FOREIGN_VARIANTS.values()))
+        ctx.note("nested_cells_expected", 4 * 4 * 2 * 3)
         ctx.note("stdin_touch_cells_expected", len(CODECS) * len(CONTAINERS) * len(STDIN_TOUCH) * 2)
         ctx.note("cli_tools", {k: (v or "absent") for k, v in ctx.state["clis"].items()})
         ctx.note("rdump_argv0", ctx.state["rdump"])
